@@ -54,6 +54,8 @@ pub enum BuildOp {
     ReadConn { m: usize },
     ReadLex { c: usize },
     Resolve,
+    /// header description (limit: 256 bytes); any string must be stored or refused, never panic
+    SetDescription { text: String },
     /// compile into a plain Vec (reference), validate, then run the fault plans if `faults`
     Compile { faults: bool },
 }
@@ -92,6 +94,24 @@ const BAD_FIELDS: [&str; 26] = [
     "", "-1", "-2", "32767", "32768", "-32768", "-32769", "99999", "abc", "*", "U99", "U0", "0/1/U3", "1e3", " 1", "0x10", "\\u{110000}",
     "\\ud800", "\\u{20}", "4294967295", "268435456", "A/B",
 ];
+
+/// header descriptions around the 256-byte limit, counted in bytes / characters / UTF-16 units
+fn gen_description(rng: &mut Rng) -> String {
+    match rng.below(12) {
+        0 => String::new(),
+        1 => "a".repeat(255),
+        2 => "a".repeat(256),
+        3 => "a".repeat(257),
+        4 => "東".repeat(85),                       // 255 bytes
+        5 => format!("a{}", "東".repeat(85)),        // 256 bytes
+        6 => "東".repeat(86),                       // 258 bytes, 86 characters
+        7 => format!("{}東", "a".repeat(255)),       // 258 bytes, 256 characters
+        8 => "東".repeat(256),                      // 768 bytes, 256 characters
+        9 => "𠮟".repeat(64),                       // 256 bytes, 64 characters, 128 units
+        10 => "𠮟".repeat(65),
+        _ => "説明 description".repeat(1 + rng.below(20)),
+    }
+}
 
 fn corrupt_csv(rng: &mut Rng, text: &str, n_rows_hint: usize) -> Vec<u8> {
     let mut lines: Vec<String> = text.lines().map(|s| s.to_string()).collect();
@@ -417,6 +437,38 @@ impl Engine for BuildSim {
                 matrices.push(Blob::Text(spec.matrix.clone()));
             }
         }
+        // many words under one key: the per-key id list holds at most 127 ids
+        if style <= 3 && rng.chance(1, 12) {
+            let first = base_csv.lines().next().unwrap_or("").to_string();
+            let f = split_csv_line(&first);
+            if f.len() >= 19 {
+                let k = [126usize, 127, 128, 129, 255, 256, 257][rng.below(7)];
+                let mut extra = String::new();
+                for i in 0..k {
+                    let mut g = f.clone();
+                    g[11] = format!("ヨミ{}", i);
+                    g[13] = "*".into();
+                    g[14] = "A".into();
+                    g[15] = "*".into();
+                    g[16] = "*".into();
+                    g[17] = "*".into();
+                    extra.push_str(&g.iter().map(|x| quote(x)).collect::<Vec<_>>().join(","));
+                    extra.push('\n');
+                }
+                csvs.push(Blob::Text(extra));
+            }
+        }
+        // part-of-speech table at its limits (ids are 16 bit, the count is stored in 16 bits too)
+        let many_pos = !user && style <= 3 && rng.chance(1, 150);
+        if many_pos {
+            let k = [32766usize, 32767, 32768, 32769, 65535, 65536, 65537][rng.below(7)];
+            let already = rec.system.entries.iter().map(|e| e.pos.clone()).collect::<std::collections::HashSet<_>>().len();
+            let mut extra = String::with_capacity(k * 48);
+            for i in 0..k.saturating_sub(already) {
+                extra.push_str(&format!("品{0},0,0,100,品{0},品{0},*,*,*,*,*,ヒン,品{0},*,A,*,*,*,*\n", i));
+            }
+            csvs.push(Blob::Text(extra));
+        }
         let mut ops = vec![];
         if !user && !rng.chance(1, 40) {
             ops.push(BuildOp::ReadConn { m: 0 });
@@ -427,7 +479,11 @@ impl Engine for BuildSim {
         if !rng.chance(1, 12) {
             ops.push(BuildOp::Resolve);
         }
-        ops.push(BuildOp::Compile { faults: true });
+        ops.push(BuildOp::Compile { faults: !many_pos });
+        if rng.chance(1, 4) {
+            let at = rng.below(ops.len());
+            ops.insert(at, BuildOp::SetDescription { text: gen_description(&mut rng) });
+        }
         // builder histories: compile again, or re-read the matrix / more rows and compile again
         if rng.chance(1, 5) {
             match rng.below(3) {
@@ -537,9 +593,11 @@ impl Engine for BuildSim {
                 let lines: Vec<&str> = t.lines().collect();
                 let n = lines.len();
                 let mut size = n / 2;
-                while size >= 1 {
+                // candidates are whole cases: for megabyte inputs only the coarse cuts are offered per round
+                let cap = if t.len() > 200_000 { out.len() + 24 } else { usize::MAX };
+                while size >= 1 && out.len() < cap {
                     let mut start = 0;
-                    while start < n {
+                    while start < n && out.len() < cap {
                         let end = (start + size).min(n);
                         let mut keep: Vec<&str> = vec![];
                         keep.extend_from_slice(&lines[..start]);
@@ -937,6 +995,17 @@ pub fn execute(case: &BuildCase, stats: &mut Stats, work: &Path) -> Option<Viola
                         stats.inc("read_lexicon.ok");
                         digest = fnv_mix(digest, 100 + n as u64);
                     }
+                }
+            }
+            BuildOp::SetDescription { text } => {
+                stats.inc("set_description");
+                if text.len() > 256 {
+                    stats.inc("set_description.over_limit");
+                }
+                digest = fnv_mix(digest, 7 + text.len() as u64);
+                let r = catch(|| with_builder!(&mut builder, b, b.set_description(text.clone())));
+                if let Err(p) = r {
+                    return viol("panic", &p.site, oi, json!({"op":"set_description","message":p.msg}));
                 }
             }
             BuildOp::Resolve => {
